@@ -200,7 +200,7 @@ def run(ctx):
     th.start()
     try:
         gen = Sub(ctx, "gen")
-        scen1 = tc.simulate(gen, "Datapath_mc", "Datapath_gen.cfg", num=160 if q else 1500, depth=9, timeout=900)
+        scen1 = tc.simulate(gen, "Datapath_mc", "Datapath_gen.cfg", num=200 if q else 2000, depth=6, timeout=900)
         scen2 = tc.simulate(gen, "Datapath_mc", "Datapath_gen2.cfg", num=36 if q else 320, depth=11, timeout=900)
         gen.merge()
         with open(scen2, "a") as fh:
